@@ -901,6 +901,7 @@ GLOBALS = {
     'enumerate': Builtin('enumerate', b_enumerate), 'zip': Builtin('zip', b_zip),
     'tuple': Builtin('tuple', b_tuple), 'list': Builtin('list', b_list),
     'set': Builtin('set', b_set), 'dict': Builtin('dict', b_dict),
+    'iter': Builtin('iter', lambda e, a, k: e.iterable(a[0])),
     'abs': Builtin('abs', b_abs), 'int': Builtin('int', b_int),
     'float': Builtin('float', b_float), 'complex': Builtin('complex', b_complex),
     'bool': Builtin('bool', b_bool), 'str': Builtin('str', b_str), 'repr': Builtin('repr', b_repr),
